@@ -20,6 +20,7 @@ def levels(tier):
             {"name": "n2", "n": 2, "alphabet": ["links", "we", "addprefix"], "links_batch": 1,
              "defaults": ["never", "domain"], "pool": [POOL4[0], POOL4[1], POOL4[3]]},
             {"name": "tpl-n1", "n": 1, "prelude": TPL, "alphabet": ["we", "addprefix", "moveprefix", "delwe", "links"], "links_batch": 1, "defaults": ["never"]},
+            {"name": "nested-n1", "n": 1, "prelude": TPL + [["we", [[1, 4]]]], "alphabet": ["delwe", "rmprefix", "moveprefix", "addprefix"], "defaults": ["never"]},
         ]
     return [
         {"name": "n2", "n": 2, "alphabet": ["links", "we", "addprefix", "batch", "page", "delwe", "moveprefix"], "links_batch": 2,
@@ -28,6 +29,8 @@ def levels(tier):
          "pool": [POOL4[0], POOL4[1], POOL4[3]]},
         {"name": "tpl-n2", "n": 2, "prelude": TPL, "alphabet": ["we", "addprefix", "moveprefix", "delwe", "links"], "links_batch": 1,
          "defaults": ["never", "domain"]},
+        {"name": "nested-n2", "n": 2, "prelude": TPL + [["we", [[1, 4]]]], "alphabet": ["delwe", "rmprefix", "moveprefix", "addprefix", "links"],
+         "links_batch": 1, "defaults": ["never"]},
     ]
 
 
@@ -76,5 +79,6 @@ def battery(E, t, h):
 
 
 def harness(E):
-    t, h, pool = build(E, E.params)
+    # the battery runs after every free request (query, write, query again), not only at the end
+    t, h, pool = build(E, E.params, after_step=lambda t_, h_: battery(E, t_, h_))
     battery(E, t, h)
